@@ -240,7 +240,7 @@ def directed_cases(tier):
     import random
     rng = random.Random(505)
     out = []
-    want = 24 if tier == "thorough" else 6
+    want = 36 if tier == "thorough" else 12
     kinds = ["script-exit", "script-kill", "script-kill-only"]
     tries = 0
     while len(out) < want and tries < 400:
@@ -249,11 +249,20 @@ def directed_cases(tier):
             ["tools", "classes", "depenv", "provideVars", "checkoutscript"], rng.randint(0, 2))))
         if not model["sources"]:
             continue
-        e = projgen.gen_edit(rng, model, [model], ["src_modify"])
+        step = ["/build/", "/build/", "/dist/"][(len(out) // len(kinds)) % 3]
+        if len(out) % 2 == 0:
+            e = projgen.gen_edit(rng, model, [model], ["src_modify"])
+        else:
+            # the edit changes the step's script (Variant-Id): the workspace is pruned and handed to the
+            # new variant, the new script leaves partial output, the revert hands it back
+            cands = [n for n in model["order"] if model["recipes"][n]["build"]]
+            e = {"kind": "salt", "recipe": rng.choice(cands), "step": "build" if step == "/build/" else "package",
+                 "value": "%x" % rng.getrandbits(24)}
+            step = "%s%s/" % (step, e["recipe"])
         if e is None:
             continue
         a = {"kind": kinds[len(out) % len(kinds)], "jobs": 1, "sched_seed": rng.getrandbits(32),
-             "match": ["/build/", "/build/", "/dist/"][(len(out) // len(kinds)) % 3], "at": rng.randint(3, 9)}
+             "match": step, "at": rng.randint(3, 9)}
         out.append({"model": model, "pre": [{"edit": e}], "post": [{"edit": {"kind": "revert", "to": 0}}],
                     "good_first": True, "aborts": [a], "final_jobs": 1, "final_seed": rng.getrandbits(32),
                     "directed": "content edit, abort in the re-run step, revert"})
